@@ -12,7 +12,7 @@
    first step always has an adequate window, and the refutation. *)
 From Coq Require Import ZArith QArith Qround List Bool Lia Lqa Sorted Permutation.
 From LMBase Require Import Res ListX.
-From LMTfm Require Import TfmNum TfmModel TfmSpec TfmProofs TfmScore TfmDist TfmPerm TfmMain TfmRun TfmTotal TfmLink TfmCheck TfmRefute.
+From LMTfm Require Import TfmNum TfmModel TfmSpec TfmProofs TfmScore TfmDist TfmPerm TfmMain TfmRun TfmTotal TfmLink TfmClause1 TfmNoPanic TfmCheck TfmRefute.
 Import ListNotations.
 Open Scope Q_scope.
 
@@ -56,6 +56,18 @@ Theorem C13_score_step_bounds : forall rows perm bg K g p win it,
   Ptail rows bg (t + d) <= p /\
   (forall l, attain l (srows (sym_cells rows) bg) -> Qsum l < t - d -> p <= Ptail rows bg (Qsum l - d)).
 Proof. exact sc_step_bounds. Qed.
+
+(* The first clause needs no condition on the mass of the window: even when lookup_score
+   exhausts its window the returned threshold is never too low (only too high: clause 2,
+   C13_window_refuted) -- as long as the window holds an attainable score. *)
+Theorem C13_score_step_clause1 : forall rows perm bg K g p win it,
+  matrix_ok K rows bg -> (2 <= length rows)%nat -> Permutation perm (seq 0 (length rows)) ->
+  0 < g -> 0 < p -> (fst win <= snd win + 1)%Z ->
+  sc_next NumQ rows perm bg p g win = Ok it ->
+  (1 < length (last (io_rows it) []))%nat ->
+  let M := inject_Z (Z.of_nat (length rows)) in
+  io_gran it = g /\ Ptail rows bg (io_score it + (M + 2) * g) <= p.
+Proof. exact sc_step_clause1. Qed.
 
 (* every Iteration of approximate_score(p) whose window is adequate *)
 Theorem C13_score_run_bounds : forall steps rows perm bg K p g win it,
@@ -111,6 +123,27 @@ Theorem C13_lookup_score_panic_31_iff : forall G bg p mn mx rowsq,
   distribution NumQ G bg mn mx = Ok rowsq ->
   (lookup_score NumQ G bg p mn mx = Panic 31 <-> first_exitQ p (last rowsq [])).
 Proof. exact lookup_score_panic_31_iff. Qed.
+
+(* In exact arithmetic that panic cannot happen: a word whose integer score exceeds the
+   re-centred window at granularity g/10 had an integer score >= alpha at granularity g
+   (I' <= 10 I + 9 + 10 error_max), and the mass of those words is <= p unless the step
+   exhausted its window (then it reports convergence and no further step follows).  So
+   approximate_score never reaches site 31 -- the panic observed on the implementation
+   (known finding F26) is an artefact of the binary64 summation order. *)
+Theorem C13_step_no_panic31 : forall rows perm bg K p g win it,
+  matrix_ok K rows bg -> (2 <= length rows)%nat -> length perm = length rows ->
+  0 < g -> 0 < p -> (fst win <= snd win + 1)%Z ->
+  sc_next NumQ rows perm bg p g win = Ok it ->
+  io_conv it = false ->
+  sc_next NumQ rows perm bg p (g / 10) (io_win it) <> Panic 31.
+Proof. exact sc_next_no_panic31. Qed.
+
+Theorem C13_approximate_score_no_panic31 : forall steps rows perm bg K p win,
+  matrix_ok K rows bg -> (2 <= length rows)%nat -> length perm = length rows ->
+  0 < p ->
+  score_window0 NumQ rows perm = Ok win ->
+  ~ In (Panic 31) (sc_run NumQ steps rows perm bg p (1 # 10) win).
+Proof. exact approximate_score_no_panic31. Qed.
 
 (* re-centred windows are never inverted (so only their position can be wrong) *)
 Theorem C13_next_window_ordered : forall rows perm bg K p g win it,
